@@ -733,6 +733,26 @@ func (c19) Run(c *Case, st *Stats) []Violation {
 					got = append(got, v)
 				}
 				ld, lderr := repo.LastDate("A")
+				// the same file again through GetSince from the first day of the data, after its time
+				// stamp has been set back to 2001 (a file's modification time says nothing about its rows)
+				var since []*asset.Snapshot
+				sinceTried, sinceErr := false, error(nil)
+				if c.Seed%2 == 0 && fsReadAt < 0 {
+					old := time.Date(2001, 2, 3, 4, 5, 6, 0, time.UTC)
+					os.Chtimes(path, old, old)
+					sinceTried = true
+					var ch2 <-chan *asset.Snapshot
+					if ch2, sinceErr = repo.GetSince("A", epoch); sinceErr == nil {
+						for {
+							consYield()
+							v, ok := <-ch2
+							if !ok {
+								break
+							}
+							since = append(since, v)
+						}
+					}
+				}
 				compare = func() {
 					var src io.Reader = bytes.NewReader(c.Doc)
 					if fsReadAt >= 0 {
@@ -742,6 +762,19 @@ func (c19) Run(c *Case, st *Stats) []Violation {
 					want := refCsv[asset.Snapshot](src, true)
 					if ok, why := sameSnapshots(got, want); !ok {
 						add("wrong-records", why)
+					}
+					if sinceTried {
+						var wantSince []*asset.Snapshot
+						for _, sn := range want {
+							if !sn.Date.Before(epoch) {
+								wantSince = append(wantSince, sn)
+							}
+						}
+						if sinceErr != nil {
+							add("unexpected-error", fmt.Sprintf("GetSince of an existing file: %v", sinceErr))
+						} else if ok, why := sameSnapshots(since, wantSince); !ok {
+							add("wrong-records", "GetSince from the first day, file stamped 2001: "+why)
+						}
 					}
 					if len(want) == 0 && lderr == nil {
 						add("error-not-reported", fmt.Sprintf("LastDate of a file without a well-formed snapshot returned %v and no error", ld))
